@@ -54,11 +54,17 @@ C == [kind |-> Kind, be |-> Backend, shares |-> Dev_SnapshotSharesData,
 Default == S(0)       \* a falsy default on purpose
 O0 == [op |-> "", path |-> <<>>, val |-> S(0), k |-> "", h |-> "", sv |-> ""]
 
+JsonScalar == [N |-> 60, T |-> 61, F |-> 62, X |-> 63, B |-> 64, E |-> 65]
+
 \* the i-th operation writes the scalar i, so later writes are distinguishable from earlier ones
 MkVal(vk, i) == CASE vk = "S" -> S(i)
                   [] vk = "M" -> M("b" :> S(i))
                   [] vk = "L" -> L(<<S(i), S(i + 50)>>)                 \* two elements: index 0 is not index -1
                   [] vk = "LM" -> L(<<M("a" :> S(i)), S(i + 50)>>)
+                  \* other JSON values (the driver maps the scalar ids 60.. to None, True, 1.5, "s", False, "")
+                  [] vk = "ME" -> EmptyMap
+                  [] vk = "LE" -> L(<<>>)
+                  [] vk \in DOMAIN JsonScalar -> S(JsonScalar[vk])
 MkState(sv, i) == CASE sv = "dict" -> M("b" :> S(i))
                     [] sv = "child" -> M([a |-> S(i), b |-> S(0)])       \* CState(a=i)
                     [] sv = "parent" -> M([a |-> S(i)])                  \* PState(a=i)
